@@ -64,6 +64,22 @@ pub fn header_lanes(all_options: bool) -> Vec<(Entry, u8)> {
     v
 }
 
+/// Every configuration that can behave differently for its message kind: 8 request option sets
+/// (3 request-relevant bits) and 32 response option sets (5 response-relevant bits) — together with
+/// C15's second clause (other-kind options are inert) this is all 128 ParserConfig values.
+pub fn all_config_lanes() -> Vec<(Entry, u8)> {
+    let mut v = Vec::new();
+    for c in 0..128u8 {
+        if c & !REQ_BITS == 0 {
+            v.push((Entry::ReqCfg, c));
+        }
+        if c & !RESP_BITS == 0 {
+            v.push((Entry::RespCfg, c));
+        }
+    }
+    v
+}
+
 /// Header-block trees for the given lanes × resume contexts.
 pub fn header_trees(lanes: &[(Entry, u8)], caps: &[u32], k: usize, depth: usize, extra: usize, comp: &Companions) -> Vec<TreeSpec> {
     let mut v = Vec::new();
@@ -178,6 +194,18 @@ pub fn plan(prop: &str, tier: Tier) -> Option<Plan> {
             p.armed = O_SAFE;
             all_areas(&mut p, "C01", &all_hdr, &[0, 1, 2, 16], if q { 5 } else { 7 }, if q { 4 } else { 5 }, if q { 5 } else { 6 }, 1, &multi_req, &multi_resp);
             stretched(&mut p, "C01", &all_hdr, &[9, 17, 33], if q { 4 } else { 5 }, if q { 3 } else { 4 }, &multi_req, &multi_resp, &BACKENDS);
+            {
+                let allc = all_config_lanes();
+                let none = Companions::None;
+                let dq = if q { 4 } else { 5 };
+                let req_cfgs: Vec<u8> = allc.iter().filter(|l| l.0 == Entry::ReqCfg).map(|l| l.1).collect();
+                let resp_cfgs: Vec<u8> = allc.iter().filter(|l| l.0 == Entry::RespCfg).map(|l| l.1).collect();
+                let mut t = tree_tasks(header_trees(&allc, &[0, 2], 1, dq, 1, &none));
+                t.extend(tree_tasks(request_trees(&req_cfgs, 2, 1, dq - 1, 1, &none)));
+                t.extend(tree_tasks(status_trees(&resp_cfgs, 2, 1, dq - 1, 1, &none)));
+                p.phases.push(phase(&format!("C01: S1 trees under all 8 request + 32 response configurations (header D={dq}, lines D={})", dq - 1), Backend::Native, t));
+                p.bounds.push(format!("S1: all 128 ParserConfig values (8 request-relevant x 32 response-relevant behaviours) at header Σ^≤{dq}, line Σ^≤{}", dq - 1));
+            }
             s2::add_entry_sweep(&mut p, q);
             s2::add_lane_phase(&mut p, q, &BACKENDS);
             s3::add_grids(&mut p, q, false);
@@ -285,6 +313,9 @@ pub fn plan(prop: &str, tier: Tier) -> Option<Plan> {
             let d = if q { 6 } else { 8 };
             p.phases.push(phase(&format!("C14: S1 header trees, 16 response + 4 request option sets, D={d}"), Backend::Native, tree_tasks(header_trees(&all_hdr, &[4], 1, d, 1, &none))));
             p.bounds.push(format!("S1: header block Σ(11)^≤{d} × (16 response + 4 request option sets + parse_headers) × 4 resume contexts, capacity 4, E=1"));
+            let allc = all_config_lanes();
+            p.phases.push(phase(&format!("C14: S1 header trees under all 8 request + 32 response option sets (multi-space bits included), D={}", d - 1), Backend::Native, tree_tasks(header_trees(&allc, &[4], 1, d - 1, 1, &none))));
+            p.bounds.push(format!("S1: header block Σ(11)^≤{} × all 8 request + 32 response configurations × 4 resume contexts", d - 1));
             for &b in &BACKENDS {
                 for k in [9usize, 17, 33] {
                     let dk = if q { 4 } else { 5 };
